@@ -52,6 +52,9 @@ pub fn plan(seed: u64, nf: usize, nc: usize) -> Plan {
             *x = Val::nil();
         }
         c.vals[2] = Val::bytes(v);
+        for m in c.lists.iter_mut() {
+            m.sets.clear(); // as in a context that nobody configured
+        }
         ctxs.push(c);
     }
     let w = World::new(specs.clone(), ctxs.clone());
@@ -208,20 +211,31 @@ pub fn run(p: &Plan, threads: usize, rounds: usize, simd_expected: bool, id0: &m
     // recycled buffers: contexts are built, used once and dropped, alternating between two contexts whose values
     // have equal sizes, so that the allocator hands the same memory to different contents; a long-lived filter
     // must not remember anything about memory it has seen
-    for _ in 0..60 {
-        for c in (nc - 2)..nc {
-            let fresh = build_ctx(scheme, &p.specs[0], &p.ctxs[c]);
-            for f in 0..nf {
-                let r = std::panic::catch_unwind(std::panic::AssertUnwindSafe(|| filters[f].execute(&fresh)));
-                let rs = match r {
-                    Ok(Ok(b)) => vec![json!(b)],
-                    _ => vec![json!(true), json!(false), json!(true)],
+    {
+        // one request buffer, overwritten between uses; each context borrows its only value from it
+        let mut buf: Vec<u8> = vec![0u8; 2];
+        let sfield = scheme.get_field("s").unwrap();
+        for _ in 0..60 {
+            for c in (nc - 2)..nc {
+                let bytes: Vec<u8> = match &p.ctxs[c].vals[2] {
+                    Val::Bytes { v } => v.clone(),
+                    _ => vec![0, 0],
                 };
-                out.push(json!({"ev": "conc", "id": *id0, "th": 0, "threads": threads, "rounds": 1, "f": f + 1, "c": c + 1,
-                                "results": rs, "simd": simd, "simd_expected": simd_expected}));
-                *id0 += 1;
+                buf.copy_from_slice(&bytes);
+                let mut fresh = wirefilter::ExecutionContext::<()>::new(scheme);
+                fresh.set_field_value(sfield, &buf[..]).unwrap();
+                for f in 0..nf {
+                    let r = std::panic::catch_unwind(std::panic::AssertUnwindSafe(|| filters[f].execute(&fresh)));
+                    let rs = match r {
+                        Ok(Ok(b)) => vec![json!(b)],
+                        _ => vec![json!(true), json!(false), json!(true)],
+                    };
+                    out.push(json!({"ev": "conc", "id": *id0, "th": 0, "threads": threads, "rounds": 1, "f": f + 1, "c": c + 1,
+                                    "results": rs, "simd": simd, "simd_expected": simd_expected}));
+                    *id0 += 1;
+                }
+                drop(fresh);
             }
-            drop(fresh);
         }
     }
     // recompilation: a fresh compilation of every filter must agree too (fresh random anchors)
